@@ -1228,4 +1228,101 @@ example : (writeWire (fun _ => 60) {} (writerWire {} .udp { qDO0 with ad := true
     (failureWire { qDO0 with ad := true, cd := true } (.raw codeEDE [0, 13])).2).map (fun r => (r.rcode, r.fl.ad, r.fl.cd)) =
     some (2, false, true) := by decide
 
+/-! ### the cache handler's plain hit, whichever route it takes -/
+
+/-- **A plain cache hit respects the client on either route.** Whatever the
+cache decides (byte route or message route, by writer capability, body
+availability, size, or a late `WriteWire` fallback), the reply echoes the
+query, has AD clear when the client set CD or neither DO nor AD, and carries no
+OPT for a client that sent none. -/
+theorem cacheHit_respects_client (L Lu Lp : Msg → Nat) (c : Consts) (cfg : Cfg) (secretLen : Nat) (proto : Proto)
+    (q : Query) (w : Writer) (hw : WriterFor cfg proto q w) (ready : Bool) (m r : Msg)
+    (h : cacheHit L Lu Lp cfg secretLen w ready m (normalised q (setEdns0 c cfg.ecs q.opt)) = some r) :
+    Echoes q r ∧
+    ((q.cd = true ∨ (q.clientDO = false ∧ q.ad = false)) → r.fl.ad = false) ∧
+    (q.opt = none → ∀ rr ∈ r.extra, rr.isOpt = false) := by
+  -- the message route
+  have hmsg : ∀ e : Entry, r = writeMsg L Lu cfg w (toMsg e (normalised q (setEdns0 c cfg.ecs q.opt))) →
+      Echoes q r ∧ ((q.cd = true ∨ (q.clientDO = false ∧ q.ad = false)) → r.fl.ad = false) ∧
+      (q.opt = none → ∀ rr ∈ r.extra, rr.isOpt = false) := by
+    intro e hr
+    subst hr
+    obtain ⟨e1, e2, e3, e4⟩ := toMsg_echoes e (normalised q (setEdns0 c cfg.ecs q.opt))
+    obtain ⟨w1, w2, w3, w4, _⟩ := writeMsg_header L Lu cfg w (toMsg e (normalised q (setEdns0 c cfg.ecs q.opt)))
+    exact ⟨⟨by rw [w1, e1]; rfl, by rw [w2, e2]; rfl, by rw [w3, e3], by rw [w4, e4]; rfl⟩,
+      fun hcl => ad_discipline L Lu cfg proto q w hw _ hcl,
+      fun hq => writeMsg_no_opt L Lu cfg proto q w hw _ hq⟩
+  unfold cacheHit at h
+  cases hwe : newWEntry m with
+  | none => rw [hwe] at h; simp at h
+  | some we =>
+    cases hce : newCacheEntry m with
+    | none => rw [hwe, hce] at h; simp at h
+    | some e =>
+      rw [hwe, hce] at h
+      simp only at h
+      cases hcp : wireReady cfg secretLen w ready with
+      | none => rw [hcp] at h; simp only [Option.some.injEq] at h; exact hmsg e h.symm
+      | some cp =>
+        rw [hcp] at h
+        simp only at h
+        cases hs : serveWireInto we (normalised q (setEdns0 c cfg.ecs q.opt)) cp.do_ with
+        | none => rw [hs] at h; simp only [Option.some.injEq] at h; exact hmsg e h.symm
+        | some p =>
+          obtain ⟨b, info⟩ := p
+          rw [hs] at h
+          simp only at h
+          split at h
+          · simp only [Option.some.injEq] at h; exact hmsg e h.symm
+          · split at h
+            · rename_i r' hwr
+              simp only [Option.some.injEq] at h
+              subst h
+              -- the byte route
+              obtain ⟨⟨e1, e2, e3, e4⟩, hiad, _⟩ := cacheWire_echoes we _ cp.do_ b info hs
+              obtain ⟨w1, w2, w3, w4, _⟩ := writeWire_header _ cfg w b r' info hwr
+              have hbx : ∀ rr ∈ b.extra, rr.isOpt = false := by
+                obtain ⟨hnoopt, _, _⟩ := newCacheEntry_facts m e hce
+                have hst : we.stored = e.msg ∧ (∀ sb, we.stripped = some sb → sb.extra = e.msg.extra) := by
+                  unfold newWEntry at hwe
+                  rw [hce] at hwe
+                  simp only [Option.some.injEq] at hwe
+                  subst hwe
+                  refine ⟨rfl, ?_⟩
+                  intro sb hsb
+                  simp only at hsb
+                  split at hsb
+                  · simp only [Option.some.injEq] at hsb
+                    subst hsb
+                    exact (clearDNSSEC_frame e.msg).2.2.2.2.2
+                  · cases hsb
+                unfold serveWireInto wireBodyFor at hs
+                split at hs
+                · cases hs
+                · rename_i bb flag hbf
+                  simp only [Option.some.injEq, Prod.mk.injEq] at hs
+                  obtain ⟨rfl, _⟩ := hs
+                  split at hbf
+                  · simp only [Option.some.injEq, Prod.mk.injEq] at hbf
+                    obtain ⟨rfl, _⟩ := hbf
+                    intro rr hrr; simp only at hrr; rw [hst.1] at hrr; exact hnoopt rr hrr
+                  · cases hstr : we.stripped with
+                    | none => rw [hstr] at hbf; cases hbf
+                    | some sb =>
+                      rw [hstr] at hbf
+                      simp only [Option.map_some, Option.some.injEq, Prod.mk.injEq] at hbf
+                      obtain ⟨rfl, _⟩ := hbf
+                      intro rr hrr; simp only at hrr; rw [hst.2 _ hstr] at hrr; exact hnoopt rr hrr
+              exact ⟨⟨by rw [w1, e1]; rfl, by rw [w2, e2]; rfl, by rw [w3, e3], by rw [w4, e4]; rfl⟩,
+                fun hcl => writeWire_ad _ cfg proto q w hw b r' info hiad hcl hwr,
+                fun hq => writeWire_no_opt _ cfg proto q w hw b r' info hq hbx hwr⟩
+            · simp only [Option.some.injEq] at h; exact hmsg e h.symm
+
+-- non-vacuity: the same entry served on the byte route (fits) and on the message route (too large for UDP: truncated)
+example : ((cacheHit (msgLen true) (msgLen false) (fun _ => 90) {} 0 (writerWire {} .udp qDO0) true nodata
+              (normalised qDO0 (setEdns0 {} false qDO0.opt))).map (fun r => (r.fl.tc, r.ns.length)),
+           (cacheHit (fun _ => 5000) (fun _ => 5000) (fun _ => 5000) {} 0 (writerWire {} .udp qDO0) true nodata
+              (normalised qDO0 (setEdns0 {} false qDO0.opt))).map (fun r => (r.fl.tc, r.ns.length))) =
+    (some (false, 1), some (true, 0)) := by decide
+
 end SdnsVerif.Props.C06
